@@ -383,10 +383,17 @@ fn gen_msg_c07(rng: &mut Rng, tier: Tier) -> msg::MsgScn {
     // sometimes every level references the next one twice (a duplicate digest the verifier must
     // refuse at once; walking it instead takes 2^N steps)
     let double = rng.chance(1, 3);
+    // container kind per level: all `_sd`, all array placeholders, or mixed
+    let kind_mode = rng.usize(3);
     for i in 0..n_chain {
         let inner = if i + 1 < n_chain {
             let r = format!("@{}", i + 1);
-            match (rng.bool(), double) {
+            let as_object = match kind_mode {
+                0 => true,
+                1 => false,
+                _ => rng.bool(),
+            };
+            match (as_object, double) {
                 (true, false) => json!({"_sd": [r]}),
                 (false, false) => json!([{"...": r}]),
                 (true, true) => json!({"_sd": [r.clone(), r]}),
